@@ -64,6 +64,35 @@ def struct_fields(c, adt_item):
     return fs
 
 
+BAD_TYPES = ("std::collections::hash::map::HashMap", "std::collections::hash::set::HashSet", "hashbrown::", "std::hash::random::RandomState",
+             "core::cell::Cell<", "core::cell::RefCell<", "std::sync::", "core::sync::atomic")
+BAD_CALLS = ("std::time::", "std::env::", "std::thread::", "std::thread_local", "std::process::", "std::fs::", "rand::")
+
+
+def nostate_findings(repo):
+    """(category, key, message, loc): statics, shared-state / hash-ordered types, environment calls, thread-locals."""
+    out = []
+    for it in repo.item_list:
+        if it["kind"].startswith("Static"):
+            out.append(("static", "static " + it["id"], "static item in the runtime crate: results may depend on earlier calls", repo.loc(it.get("sp"))))
+    for t in repo.types:
+        sx = t["s"]
+        for bt in BAD_TYPES:
+            if bt in sx:
+                out.append(("type", "type " + sx[:80], "hash-ordered collection / interior mutability / shared state type used in the runtime crate", None))
+                break
+    for fid in repo.bodies:
+        if "::tests::" in fid:
+            continue
+        for n in walk(repo.body(fid)["value"]):
+            cal = n.get("callee")
+            if cal and strip_generics(cal["path"]).startswith(BAD_CALLS):
+                out.append(("call", "call in " + fid, "call to %s: result may depend on the environment" % cal["path"], repo.loc(n.get("sp"))))
+            if "thread_local" in repo.macros(n):
+                out.append(("thread_local", "thread_local in " + fid, "thread-local state", repo.loc(n.get("sp"))))
+    return out
+
+
 def run(ctx):
     fs = facts.load("core", "fx_macros")
     world = nodes.World(fs, ["pest_typed", "fx_macros"])
@@ -140,29 +169,20 @@ def run(ctx):
     rd.require(280, "node types")
     # NOSTATE
     repo = fs["pest_typed"]
-    n_items = 0
-    for it in repo.item_list:
-        n_items += 1
-        if it["kind"].startswith("Static"):
-            rn.violate("static " + it["id"], "static item in the runtime crate: results may depend on earlier calls", repo.loc(it.get("sp")))
-    BAD_TYPES = ("std::collections::hash::map::HashMap", "std::collections::hash::set::HashSet", "hashbrown::", "std::hash::random::RandomState",
-                 "core::cell::Cell<", "core::cell::RefCell<", "std::sync::", "core::sync::atomic")
-    for t in repo.types:
-        s = t["s"]
-        for b in BAD_TYPES:
-            if b in s:
-                rn.violate("type " + s[:80], "hash-ordered collection / interior mutability / shared state type used in the runtime crate")
-                break
-    BAD_CALLS = ("std::time::", "std::env::", "std::thread::", "std::thread_local", "std::process::", "std::fs::", "rand::")
-    for fid in repo.bodies:
-        if "::tests::" in fid:
-            continue
-        for n in walk(repo.body(fid)["value"]):
-            cal = n.get("callee")
-            if cal and strip_generics(cal["path"]).startswith(BAD_CALLS):
-                rn.violate("call in " + fid, "call to %s: result may depend on the environment" % cal["path"], repo.loc(n.get("sp")))
-            if "thread_local" in repo.macros(n):
-                rn.violate("thread_local in " + fid, "thread-local state", repo.loc(n.get("sp")))
+    n_items = len(repo.item_list)
+    for cat, key, msg, loc in nostate_findings(repo):
+        rn.violate(key, msg, loc)
+    # positive control: each scanner must fire on the construct it exists to find (fixtures/fx_controls)
+    try:
+        ctl = facts.load("fx_controls")["fx_controls"]
+        got = {cat for cat, _, _, _ in nostate_findings(ctl)}
+        for cat in ("static", "type", "call", "thread_local"):
+            if cat in got:
+                rn.inst("control: " + cat, None, "scanner fires on fixtures/fx_controls", nontrivial=False)
+            else:
+                rn.violate("control: " + cat, "the %s scanner does not fire on its positive control (fixtures/fx_controls): its silence on pest_typed is no evidence" % cat)
+    except facts.BuildFailed as ex:
+        rn.violate("control", "fixtures/fx_controls does not build: %s" % str(ex)[:200])
     rn.inst("pest_typed: items/types/calls scanned", None, "ok", {"items": n_items, "types": len(repo.types), "bodies": len(repo.bodies)})
     # fresh stack/tracker per entry (R04-DELEG instances)
     base = "pest_typed::typed_node::ParsableTypedNode::"
@@ -173,7 +193,7 @@ def run(ctx):
             rn.inst(base + meth, world.fn_loc(base + meth), "ok: fresh Stack and Tracker")
         else:
             rn.violate(base + meth, "entry method does not start from a fresh Stack and Tracker: %s" % evs, world.fn_loc(base + meth))
-    rn.require(5, "instances")
+    rn.require(9, "instances")
     ctx.assume("'equal exactly when same Debug rendering' on values is not decided; derived impls are rustc's")
     ctx.explanation = ("Impl tables of pest_typed and the macro fixture: hand-written eq/hash bodies are reduced to the set of fields they touch "
                        "and compared with the type's field list; every other node type must carry derived impls; the runtime crate is scanned "
